@@ -15,7 +15,8 @@ emptying its channels after each notifier call.  Environment assumptions (`Ok`, 
     the active chain does);
   * reorg depth below the safety limit: `untip` only while `cur + limit > highest tip ever seen`.
 -/
-import LndModel.C14.Chain
+import LndModel.C14.Hint
+import LndModel.C14.Payload
 import LndModel.C14.Props
 
 namespace LndModel.C14
@@ -32,7 +33,7 @@ theorem wstep_B {w : World} (op : WOp) (h : w.r.AllB) : (wstep w op).r.AllB := b
   cases op with
   | register reg n hint => exact drainR_B (ConfReq.register_A _ _ _ _ _ h)
   | cancel reg => exact drainR_B (ConfReq.cancel_A _ h)
-  | update from_ d => exact drainR_B (ConfReq.update_A _ _ _ h)
+  | update d => exact drainR_B (ConfReq.update_A _ _ _ h)
   | tip b => exact drainR_B (ConfReq.notify_A _ (drainR_B (ConfReq.connect_B _ _ b h).toA))
   | untip => exact drainR_B (ConfReq.disconnect_A _ _ _ h)
 
@@ -40,51 +41,6 @@ theorem run_wB {w : World} (ops : List WOp) (h : w.r.AllB) : (ops.foldl wstep w)
   induction ops generalizing w with
   | nil => exact h
   | cons op rest ih => exact ih (wstep_B op h)
-
-theorem atTip_key (r : ConfReq) (d : ConfDetails) : (r.atTip d).key = r.key := by
-  unfold ConfReq.atTip; split <;> (try split) <;> rfl
-
-theorem mature_key (r : ConfReq) (h l : Nat) : (r.mature h l).key = r.key := by
-  unfold ConfReq.mature; split <;> (try split) <;> rfl
-
-theorem connect_key (r : ConfReq) (c l : Nat) (b : Block) : (r.connect c l b).key = r.key := by
-  unfold ConfReq.connect
-  rw [foldl_atTip, mature_key, (updateHint_fields _ _ _).1]
-  split
-  · rfl
-  · exact atTip_key _ _
-
-theorem notifyUpdates_key (r : ConfReq) (h : Nat) : (r.notifyUpdates h).key = r.key := by
-  unfold ConfReq.notifyUpdates; split <;> (try split) <;> (try split) <;> rfl
-
-theorem notifyDue_key (r : ConfReq) (h : Nat) : (r.notifyDue h).key = r.key := by
-  unfold ConfReq.notifyDue; split <;> (try split) <;> (try split) <;> rfl
-
-theorem notify_key (r : ConfReq) (h : Nat) : (r.notify h).key = r.key := by
-  unfold ConfReq.notify
-  simp only [notifyDue_key, notifyUpdates_key]
-
-theorem disconnect_key (r : ConfReq) (c d h : Nat) : (r.disconnect c d h).key = r.key := by
-  unfold ConfReq.disconnect
-  have := (updateHint_fields c h r).1
-  simp only
-  split <;> (try split) <;> simp [this]
-
-/-- the request keeps its key -/
-theorem wstep_key (w : World) (op : WOp) : (wstep w op).r.key = w.r.key := by
-  cases op with
-  | register reg n hint => exact register_key _ _ _ _ _ _
-  | cancel reg => exact cancel_key _ _
-  | update from_ d => exact update_key _ _ _ _
-  | tip b =>
-    simp only [wstep, drainR_key, notify_key, connect_key]
-  | untip =>
-    simp only [wstep, drainR_key, disconnect_key]
-
-theorem run_key (w : World) (ops : List WOp) : (ops.foldl wstep w).r.key = w.r.key := by
-  induction ops generalizing w with
-  | nil => rfl
-  | cons op rest ih => rw [List.foldl_cons, ih, wstep_key]
 
 /-! ### headline theorems -/
 
@@ -112,6 +68,32 @@ theorem conf_only_if_on_active_chain :
   obtain ⟨d, h1, h2⟩ := inv_sound hinv hn hl hd
   have hk : w.r.key = key := run_key _ _
   exact ⟨d, h1, by rw [← hk]; exact h2⟩
+
+/-- the payload the client actually read: the last `Confirmed` event in the history of a client
+    that holds a confirmation carries exactly the request's details, which name a block of the
+    ACTIVE chain containing the transaction at that index (block id, height and tx index of the
+    delivered event are those of the active chain). -/
+theorem conf_payload_on_active_chain :
+    let w := ops.foldl wstep (World.init key limit chain0)
+    ∀ n ∈ w.r.ntfns, n.live = true → holdsConf n.seen = true →
+      ∃ d, lastConfD n.seen = some d ∧ w.r.details = some d ∧ OnChain w.chain key d := by
+  intro w n hn hl hh
+  have hinv : WInv w := run_inv (init_inv key limit chain0 hv) hok
+  have hB : w.r.AllB := run_wB ops (fun n hn => by simp [World.init] at hn)
+  have hP : PayAll w.r := run_pay (init_inv key limit chain0 hv) hok
+    (fun n hn => by simp [World.init] at hn)
+  obtain ⟨b, hb, hcl⟩ := hB n hn
+  have hclosed : n.closed = false := (hinv.1.2 n hn).2.2.2.1 hl
+  obtain ⟨_, _, hbd⟩ := hcl hclosed
+  have hd : n.dispatched = true := by
+    rw [← hbd, holds_of_okFrom hb]; exact hh
+  obtain ⟨d, h1, h2⟩ := inv_sound hinv hn hl hd
+  have hk : w.r.key = key := run_key _ _
+  have hpay := hP n hn hl hd
+  have hconf : n.confirmed = [] := (hinv.2 n hn hclosed).2.1
+  rw [hconf] at hpay
+  refine ⟨d, ?_, h1, by rw [← hk]; exact h2⟩
+  rw [← h1]; simpa [lastFrom] using hpay
 
 /-- `conf_iff_N_on_active_chain`, if direction: when the transaction is on the active chain at a
     height `h` that the request has examined (`cover ≤ h`: seen at tip, or covered by a completed
@@ -163,6 +145,35 @@ theorem never_blocks_never_panics :
 
 end
 
+/-! ### depth at the moment of delivery
+
+`sendConfirmed` is called in exactly two places of the model: `ConfNtfn.dispatch`
+(`dispatchConfDetails`, used by RegisterConf / UpdateConfDetails) and `ConfNtfn.confirmAt`
+(`NotifyHeight`).  In both the transaction has at least `numConfs` confirmations. -/
+
+theorem delivered_only_when_deep_dispatch (n : ConfNtfn) (cur : Nat) (d : ConfDetails)
+    (h0 : n.dispatched = false) (h1 : (n.dispatch cur d).dispatched = true) :
+    d.height + n.numConfs ≤ cur + 1 := by
+  unfold ConfNtfn.dispatch at h1
+  simp only [h0, Bool.false_eq_true, ↓reduceIte] at h1
+  split at h1
+  · omega
+  · rw [(sendUpdate_same _ _ _).2.2.1] at h1
+    simp [h0] at h1
+
+theorem delivered_only_when_deep_notify {cur limit : Nat} {d : ConfDetails} {n : ConfNtfn}
+    (hc : Core cur limit (some d) n) (hl : n.live = true) (h0 : n.dispatched = false)
+    (h1 : (n.confirmAt d (cur + 1)).dispatched = true) :
+    d.height + n.numConfs = cur + 1 + 1 := by
+  obtain ⟨hq, hlt⟩ := (hc.2.2.2.2.2 hl).2 h0
+  unfold ConfNtfn.confirmAt at h1
+  split at h1
+  · rename_i hcond
+    simp only [hq, Bool.and_eq_true, List.contains_iff_mem, List.mem_singleton] at hcond
+    have := hc.2.1
+    omega
+  · rw [h0] at h1; cases h1
+
 /-! ### reorg notice -/
 
 theorem disconnected_hit_seen {n : ConfNtfn} (k cur depth : Nat) (hc : Chan n) (hcl : n.closed = false) :
@@ -208,40 +219,80 @@ theorem reorg_notice_sent {w : World} (h : WInv w) (hok : Ok w .untip) {d : Conf
   refine ⟨n.disconnected r0.initialAt.length true w.cur (w.depth + 1), ⟨n, by rw [u7]; exact hn, by simp [hl]⟩, ?_⟩
   simp [a]
 
+/-! ### an unread NegativeConf is removed only by a re-confirmation (or by the client reading it)
+
+For clients that do NOT read their channels after every call the property's "reorg notice before
+any renewed confirmation" is only true in this weaker form (see `assumptions` in C14.json): the
+notice is sent (`reorg_notice_sent`), every notifier function except `ConfNtfn.tipped` leaves the
+content of the NegativeConf channel in place, and `tipped` is applied by `handleConfDetailsAtTip`
+only when the request's details go from none to the new block (a re-confirmation). -/
+
+theorem negConf_kept (n : ConfNtfn) :
+    (∀ l h, n.negConf <+: (n.sendUpdate l h).negConf) ∧
+    (∀ d, n.negConf <+: (n.sendConfirmed d).negConf) ∧
+    (∀ x, n.negConf <+: (n.sendNeg x).negConf) ∧
+    n.negConf <+: n.sendDone.negConf ∧
+    (∀ cur d, n.negConf <+: (n.dispatch cur d).negConf) ∧
+    (∀ h depth, n.negConf <+: (n.reorg h depth).negConf) ∧
+    (∀ det, n.negConf <+: (n.cancelled det).negConf) ∧
+    n.negConf <+: n.matured.negConf ∧
+    (∀ d h, n.negConf <+: (n.updateAt d h).negConf) ∧
+    (∀ d h, n.negConf <+: (n.confirmAt d h).negConf) ∧
+    (∀ h, n.negConf <+: (n.unqueue h).negConf) ∧
+    (∀ k hit h depth, n.negConf <+: (n.disconnected k hit h depth).negConf) := by
+  have su : ∀ (m : ConfNtfn) l h, (m.sendUpdate l h).negConf = m.negConf := by
+    intro m l h; unfold ConfNtfn.sendUpdate; split <;> (try split) <;> rfl
+  have sc : ∀ (m : ConfNtfn) d, (m.sendConfirmed d).negConf = m.negConf := by
+    intro m d; unfold ConfNtfn.sendConfirmed; split <;> rfl
+  have sn : ∀ (m : ConfNtfn) x, m.negConf <+: (m.sendNeg x).negConf := by
+    intro m x; unfold ConfNtfn.sendNeg; split
+    · exact List.prefix_refl _
+    · exact List.prefix_append _ _
+  have sd : ∀ (m : ConfNtfn), m.sendDone.negConf = m.negConf := by
+    intro m; unfold ConfNtfn.sendDone; split <;> rfl
+  have rf : ∀ (l : List Nat), l <+: l := fun l => List.prefix_refl l
+  have rg : ∀ (m : ConfNtfn) h depth, m.negConf <+: (m.reorg h depth).negConf := by
+    intro m h depth
+    unfold ConfNtfn.reorg
+    split
+    · exact sn m depth
+    · exact sn ({ m with confirmed := m.confirmed.drop 1, dispatched := false }) depth
+  refine ⟨fun l h => by rw [su]; exact rf _, fun d => by rw [sc]; exact rf _, sn n,
+    by rw [sd]; exact rf _, ?_, rg n, fun _ => rf _, ?_, ?_, ?_, fun _ => rf _, ?_⟩
+  · intro cur d
+    unfold ConfNtfn.dispatch
+    split
+    · exact rf _
+    · simp only; split
+      · rw [sc, su]; exact rf _
+      · rw [su]; exact rf _
+  · unfold ConfNtfn.matured; simp only; rw [sd]; exact rf _
+  · intro d h
+    unfold ConfNtfn.updateAt; simp only; split
+    · exact rf _
+    · rw [su]; exact rf _
+  · intro d h
+    unfold ConfNtfn.confirmAt; split
+    · rw [sc]; exact rf _
+    · exact rf _
+  · intro k hit h depth
+    unfold ConfNtfn.disconnected
+    simp only
+    split
+    · exact rg ({ n with updates := n.updates.drop k, left := n.numConfs }) h depth
+    · exact rf _
+
+theorem atTip_drains_only_on_reconfirm (r : ConfReq) (d : ConfDetails)
+    (h : (r.atTip d).ntfns ≠ r.ntfns) : r.details = none ∧ (r.atTip d).details = some d := by
+  unfold ConfReq.atTip at h ⊢
+  cases hs : r.set with
+  | false => simp [hs] at h
+  | true =>
+    cases hd : r.details with
+    | some x => simp [hs, hd] at h
+    | none => simp [hs, hd]
+
 /-! ### hints move with the tip only for requests whose rescan is complete -/
-
-theorem updateHint_hint (r : ConfReq) (c ht : Nat) :
-    (r.updateHint c ht).hint = r.hint ∨
-    ((r.updateHint c ht).hint = some c ∧
-      ((r.set = true ∧ r.rescan = .complete ∧ r.details = none) ∨ ht ∈ r.initialAt)) := by
-  unfold ConfReq.updateHint
-  split
-  · rename_i hc
-    right
-    refine ⟨rfl, ?_⟩
-    simp only [Bool.or_eq_true, Bool.and_eq_true, beq_iff_eq, Option.isNone_iff_eq_none,
-      List.contains_iff_mem] at hc
-    rcases hc with ⟨⟨a, b⟩, c⟩ | c
-    · exact Or.inl ⟨a, b, c⟩
-    · exact Or.inr c
-  · left; rfl
-
-theorem disconnect_hint (r : ConfReq) (c d h : Nat) :
-    (r.disconnect c d h).hint = (r.updateHint c h).hint := by
-  unfold ConfReq.disconnect
-  simp only
-  split <;> (try split) <;> rfl
-
-theorem mature_hint (r : ConfReq) (h l : Nat) : (r.mature h l).hint = r.hint := by
-  unfold ConfReq.mature; split <;> (try split) <;> rfl
-
-theorem notify_hint (r : ConfReq) (h : Nat) : (r.notify h).hint = r.hint := by
-  unfold ConfReq.notify ConfReq.notifyDue ConfReq.notifyUpdates
-  simp only
-  split <;> (try split) <;> (try split) <;> (try split) <;> (try split) <;> (try split) <;> rfl
-
-theorem atTip_hint (r : ConfReq) (d : ConfDetails) : (r.atTip d).hint = r.hint := by
-  unfold ConfReq.atTip; split <;> (try split) <;> rfl
 
 /-- `hint_safe`, second half, for `DisconnectTip`: the cached hint changes only if the request's
     rescan is complete, and then it becomes the new current height. -/
@@ -317,13 +368,19 @@ theorem hasb_false {b : Block} {key : Nat} (h : b.hasb key = false) : ¬ b.has k
 def okb (w : World) : WOp → Bool
   | .register _ n _ => decide (1 ≤ n) && decide (n ≤ w.limit)
   | .cancel _ => true
-  | .update _ (some d) =>
-    decide (1 ≤ d.height) &&
-    (match w.chain[d.height - 1]? with
-     | some b => b.id == d.block && (b.confHits w.r.key).contains d.txIndex
-     | none => false) &&
-    w.r.ntfns.any (·.live)
-  | .update from_ none => w.chain.zipIdx.all fun p => !(decide (from_ ≤ p.2 + 1)) || !p.1.hasb w.r.key
+  | .update d =>
+    match w.range with
+    | none => false
+    | some (a, b0) =>
+      match d with
+      | some d =>
+        decide (1 ≤ d.height) &&
+        (match w.chain[d.height - 1]? with
+         | some b => b.id == d.block && (b.confHits w.r.key).contains d.txIndex
+         | none => false) &&
+        w.r.ntfns.any (·.live)
+      | none => w.chain.zipIdx.all fun p =>
+          !(decide (a ≤ p.2 + 1) && decide (p.2 + 1 ≤ b0)) || !p.1.hasb w.r.key
   | .tip b => !b.hasb w.r.key || w.chain.all (fun b' => !b'.hasb w.r.key)
   | .untip => decide (1 ≤ w.cur) && decide (w.cur + w.limit > w.maxTip)
 
@@ -331,26 +388,35 @@ theorem okb_sound {w : World} {op : WOp} (h : okb w op = true) : Ok w op := by
   cases op with
   | register reg n hint => simpa [okb, Ok] using h
   | cancel reg => trivial
-  | update from_ d =>
-    cases d with
-    | some d =>
-      simp only [okb, Bool.and_eq_true, decide_eq_true_eq, List.any_eq_true] at h
-      obtain ⟨⟨h1, h2⟩, n, hn, hl⟩ := h
-      refine ⟨⟨h1, ?_⟩, n, hn, hl⟩
-      cases hb : w.chain[d.height - 1]? with
-      | none => simp [hb] at h2
-      | some b =>
-        simp only [hb, Bool.and_eq_true, beq_iff_eq, List.contains_iff_mem] at h2
-        exact ⟨b, rfl, h2.1, h2.2⟩
-    | none =>
-      simp only [okb, List.all_eq_true] at h
-      intro hh b hge h1 hb
-      have hm : (b, hh - 1) ∈ w.chain.zipIdx := List.mk_mem_zipIdx_iff_getElem?.mpr hb
-      have := h (b, hh - 1) hm
-      simp only [Bool.or_eq_true, Bool.not_eq_true', decide_eq_false_iff_not] at this
-      rcases this with x | x
-      · omega
-      · exact hasb_false x
+  | update d =>
+    simp only [okb] at h
+    cases hr : w.range with
+    | none => simp [hr] at h
+    | some ab =>
+      obtain ⟨a, b0⟩ := ab
+      simp only [hr] at h
+      refine ⟨a, b0, hr, ?_⟩
+      cases d with
+      | some d =>
+        simp only [Bool.and_eq_true, decide_eq_true_eq, List.any_eq_true] at h
+        obtain ⟨⟨h1, h2⟩, n, hn, hl⟩ := h
+        refine ⟨⟨h1, ?_⟩, n, hn, hl⟩
+        cases hb : w.chain[d.height - 1]? with
+        | none => simp [hb] at h2
+        | some b =>
+          simp only [hb, Bool.and_eq_true, beq_iff_eq, List.contains_iff_mem] at h2
+          exact ⟨b, rfl, h2.1, h2.2⟩
+      | none =>
+        simp only [List.all_eq_true] at h
+        intro hh b hge hle h1 hb
+        have hm : (b, hh - 1) ∈ w.chain.zipIdx := List.mk_mem_zipIdx_iff_getElem?.mpr hb
+        have := h (b, hh - 1) hm
+        simp only [Bool.or_eq_true, Bool.not_eq_true', Bool.and_eq_false_iff,
+          decide_eq_false_iff_not] at this
+        rcases this with (x | x) | x
+        · omega
+        · omega
+        · exact hasb_false x
   | tip b =>
     simp only [okb, Bool.or_eq_true, Bool.not_eq_true', List.all_eq_true] at h
     intro hb j b' hj
@@ -373,7 +439,7 @@ theorem okRunb_sound {w : World} {ops : List WOp} (h : okRunb w ops = true) : Ok
 /-- tx 7 is mined at height 2, confirmed for a 2-conf client at height 3, reorged out
     (two blocks), and re-mined at height 2 in another block. -/
 def demoOps : List WOp :=
-  [.register 0 2 1, .update 1 none,
+  [.register 0 2 1, .update none,
    .tip ⟨11, [⟨7, []⟩]⟩, .tip ⟨12, []⟩, .untip, .untip, .tip ⟨13, [⟨3, []⟩, ⟨7, []⟩]⟩, .tip ⟨14, []⟩]
 
 def demoChain0 : List Block := [⟨10, []⟩]
@@ -394,5 +460,101 @@ theorem demo_ok : OkRun (World.init 7 4 demoChain0) demoOps := okRunb_sound (by 
 example : (demoOps.foldl wstep (World.init 7 4 demoChain0)).r.ntfns.map (·.seen) =
     [[.upd ⟨1, 2⟩, .conf ⟨2, 11, 0⟩, .upd ⟨0, 2⟩, .neg 2, .upd ⟨1, 2⟩, .conf ⟨2, 13, 1⟩, .upd ⟨0, 2⟩]] := by
   decide
+
+/-! ### `hint_safe` and the model variant with seeded bug C14_1 -/
+
+/-- `hint_safe`: after any admissible history with honest client hints, the cached confirm hint
+    is at most the height of the block of the ACTIVE chain that contains the transaction, so a
+    rescan from the hint (e.g. after a restart) cannot start above the confirming block. -/
+theorem hint_safe (key limit : Nat) (chain0 : List Block) (hv : Valid chain0 key) (hl : 1 ≤ limit)
+    (ops : List WOp) (hok : OkRunH (World.init key limit chain0) ops) :
+    let w := ops.foldl wstep (World.init key limit chain0)
+    ∀ v, w.r.hint = some v → ∀ (h : Nat) (b : Block), 1 ≤ h → w.chain[h - 1]? = some b →
+      b.has key → v ≤ h := by
+  intro w v hv' h b h1 hb hhas
+  obtain ⟨_, hi⟩ := run_hinv (init_inv key limit chain0 hv) (init_hinv key limit chain0) hl hok
+  have hk : w.r.key = key := run_key _ _
+  exact hi.hint_ok v hv' h b h1 hb (by rw [hk]; exact hhas)
+
+/-- executable `Honest` -/
+def honestb (w : World) : WOp → Bool
+  | .register _ _ hint => w.chain.zipIdx.all fun p => !(decide (p.2 + 1 < hint)) || !p.1.hasb w.r.key
+  | .tip b => !b.hasb w.r.key || decide (w.lo ≤ w.cur + 1)
+  | _ => true
+
+theorem honestb_sound {w : World} {op : WOp} (h : honestb w op = true) : Honest w op := by
+  cases op with
+  | register reg n hint =>
+    simp only [honestb, List.all_eq_true] at h
+    intro hh b h1 hlt hb
+    have hm : (b, hh - 1) ∈ w.chain.zipIdx := List.mk_mem_zipIdx_iff_getElem?.mpr hb
+    have := h (b, hh - 1) hm
+    simp only [Bool.or_eq_true, Bool.not_eq_true', decide_eq_false_iff_not] at this
+    rcases this with x | x
+    · omega
+    · exact hasb_false x
+  | tip b =>
+    simp only [honestb, Bool.or_eq_true, Bool.not_eq_true', decide_eq_true_eq] at h
+    intro hb
+    rcases h with x | x
+    · exact absurd hb (hasb_false x)
+    · exact x
+  | cancel reg => trivial
+  | update d => trivial
+  | untip => trivial
+
+def okRunHb : World → List WOp → Bool
+  | _, [] => true
+  | w, op :: rest => okb w op && honestb w op && okRunHb (wstep w op) rest
+
+theorem okRunHb_sound {w : World} {ops : List WOp} (h : okRunHb w ops = true) : OkRunH w ops := by
+  induction ops generalizing w with
+  | nil => trivial
+  | cons op rest ih =>
+    simp only [okRunHb, Bool.and_eq_true] at h
+    exact ⟨okb_sound h.1.1, honestb_sound h.1.2, ih h.2⟩
+
+/-- `UpdateConfDetails` with seeded bug C14_1: the early exit "details already found at tip" is
+    taken only after the "rescan found nothing" branch. -/
+def ConfReq.updateBuggy (cur limit : Nat) (r : ConfReq) (d : Option ConfDetails) : ConfReq × Res :=
+  if !r.set then (r, .errNotFound)
+  else
+    let r' := { r with rescan := .complete }
+    match d with
+    | none => ({ r' with hint := some cur }, .ok)
+    | some d =>
+      if d.height > cur then (r', .ok)
+      else if r.details.isSome then (r', .ok)
+      else (({ r' with hint := some d.height, details := some d }).dispatchAll cur limit, .ok)
+
+def wstepBuggy (w : World) : WOp → World
+  | .update d =>
+    { w with r := drainR (w.r.updateBuggy w.cur w.limit d).1, cover := coverAfter w.cover w.range }
+  | op => wstep w op
+
+/-- a rescan for `[1, 1]` is dispatched, the transaction is mined at tip in block 2, one more
+    block follows, and only then the rescan answers "not found" (truthfully, for its range) -/
+def lateOps : List WOp :=
+  [.register 0 1 1, .tip ⟨11, [⟨7, []⟩]⟩, .tip ⟨12, []⟩, .update none]
+
+/-- the history is admissible (`Ok` and `Honest` at every step) … -/
+theorem late_ok : OkRunH (World.init 7 4 demoChain0) lateOps := okRunHb_sound (by decide)
+
+/-- … the model keeps the hint at the confirmation height 2 (as `hint_safe` demands) … -/
+example : (lateOps.foldl wstep (World.init 7 4 demoChain0)).r.hint = some 2 := by decide
+
+/-- … while in the variant with the seeded bug the same admissible history (every step also
+    passes the checks along the buggy run) ends with hint 3 above the block at height 2 that
+    contains the transaction: the conclusion of `hint_safe` is false for that model, i.e. the
+    invariant `HInv` is not preserved by `updateBuggy`. -/
+theorem buggy_update_breaks_hint_safe :
+    let w := lateOps.foldl wstepBuggy (World.init 7 4 demoChain0)
+    w.r.hint = some 3 ∧ w.chain[2 - 1]? = some ⟨11, [⟨7, []⟩]⟩ ∧
+      (⟨11, [⟨7, []⟩]⟩ : Block).hasb 7 = true ∧
+    ¬ (∀ v, w.r.hint = some v → ∀ (h : Nat) (b : Block), 1 ≤ h → w.chain[h - 1]? = some b →
+        b.hasb 7 = true → v ≤ h) := by
+  refine ⟨by decide, by decide, by decide, fun hall => ?_⟩
+  have := hall 3 (by decide) 2 ⟨11, [⟨7, []⟩]⟩ (by decide) (by decide) (by decide)
+  omega
 
 end LndModel.C14
